@@ -103,12 +103,13 @@ func (q *Queue) Dequeue() any {
 
 		nextNode := (*item)(next)
 
+		// Read the value before publishing the new head: once the head has
+		// moved, a concurrent Dequeue may already have consumed nextNode.
+		value := nextNode.v
+
 		// Try to advance the head
 		if atomic.CompareAndSwapPointer(&q.head, unsafe.Pointer(head), next) {
-			// Get the value before potentially releasing the node
-			value := nextNode.v
-
-			// Release the old head node back to the pool
+			// Drop the old head node
 			q.releaseItem(head)
 
 			// Decrement length atomically
@@ -134,10 +135,12 @@ func (q *Queue) getItem() *item {
 	return q.pool.Get().(*item)
 }
 
-// releaseItem returns a node to the pool for reuse
-func (q *Queue) releaseItem(i *item) {
-	// Reset i to prevent memory leaks
-	i.v = nil
-	i.next = nil
-	q.pool.Put(i)
-}
+// releaseItem drops a node that has been unlinked from the queue.
+//
+// Nodes are deliberately not recycled. A concurrent Enqueue or Dequeue may
+// still hold a pointer to the node it loaded as tail or head; resetting the
+// node and handing it out again lets that stale CAS succeed on a node that is
+// no longer (or again) part of the list, which loses or duplicates values
+// (ABA). Leaving unlinked nodes to the garbage collector keeps every such
+// stale operation failing its CAS and retrying.
+func (q *Queue) releaseItem(_ *item) {}
